@@ -45,6 +45,25 @@ CHECKS["C05"] = {
             "are declared in the spec; tag order inside a series is not compared (the statement speaks of sets after parsing)",
     "technique": "TLC-enumerated datagrams (I-level loop = P-level homomorphism) replayed into the real DatagramParser in a synctest bubble",
 }
+CHECKS["C06"] = {
+    "text": "MetricMap.tla states the partition law (IsPartition) and TLC checks the I-level split against it for every bucket function; "
+            "the real MetricMap.Split and BackendHandler.DispatchMetricMap are then driven with TLC-enumerated batch structures and "
+            "their recorded outputs are judged by the PartitionProp monitor through TLC trace validation (route learned on first sight; "
+            "one shard per series; union equals batch; values untouched).",
+    "design_ref": "6/C06",
+    "note": "the hash itself is opaque: only consistency of the observed routing is checked; end-to-end 'same aggregator, once per flush' "
+            "is asserted on C01's traces by the same monitor operator PReport",
+    "technique": "TLC trace validation of recorded Split/dispatch results against a P-level partition monitor",
+}
+CHECKS["C07"] = {
+    "text": "TLC proves on the I-level Merge that every ordered binary merge tree over every bounded family of maps evaluates into the "
+            "canonical aggregate (MergeLaw), and prints each family with that aggregate; the harness runs every tree through "
+            "MetricMap.Merge and every permutation through MergeMaps, the consolidator and the aggregator and compares.",
+    "design_ref": "6/C07",
+    "note": "values and timestamps from small domains incl. ties; tag stage and cloud stage merges are exercised under C10 / C11; "
+            "concurrent slot assignment under C15",
+    "technique": "TLC-enumerated map families with canonical aggregate (MergeLaw invariant) replayed through all merge implementations",
+}
 NOT_APPLICABLE = [{"property_id": p, "reason": "check not built yet (build in progress; see DESIGN.md Appendix B for the order)"}
                   for p in ALL if p not in CHECKS]
 ENGINES[0]["serves_properties"] = sorted(CHECKS)
